@@ -59,6 +59,17 @@ def fastMean (kx alpha : List K) : K := (List.zipWith (· * ·) kx alpha).sum
 
 end
 
+section rbf
+variable {K : Type} [Sub K] [Mul K] [OfScientific K]
+
+/-- the cached RBF kernel value: `rbf_var · exp(r2 · factor)` (`factor = −0.5/lengthscale²`) -/
+def rbfK (exp : K → K) (v f r2 : K) : K := v * exp (r2 * f)
+
+/-- one coordinate of `dkdx = 2 · factor · (x − X_i) · kx` -/
+def rbfDk (x a f k : K) : K := (2.0 : K) * f * (x - a) * k
+
+end rbf
+
 /-- `GPyRegression.update`: the evidence is the old evidence followed by the new rows -/
 def updateEvidence {α : Type} (old new : List α) : List α := old ++ new
 
